@@ -13,9 +13,9 @@ PROPS = {
    rule="cases = operation sequences over the cache API (store/fetch/rise/remove/clear/stats/clock-advance; through base_cache and through cache_interface with nested triggers_recorders) "
         "checked op by op against a sequential reference model; the first 16^3 (quick) / 16^5 (thorough) indices enumerate ALL sequences of that length over a 16-op alphabet on 2 keys/1 trigger, "
         "the rest are seeded random sequences of 8..400 ops (swarm: backend thread/process_shared, limit, alphabets, value sizes, deadlines). "
-        "non-trivial = a fetch HIT was observed after at least one invalidation event (trigger raise that hit, remove that hit, clear, deadline passed); distinct = distinct (op-shape sequence, backend, limit) hash",
+        "Added in round 2: half of the cache_interface plans run inside a request context (an application on the repository's dummy connection) with whole pages: fetch_page / store_page, the page inheriting every trigger the request added or fetched; one store in six repeats the exact bytes of an earlier store; a third of the plans use key names with identical string_hash values (one bucket chain). non-trivial = a fetch HIT was observed after at least one invalidation event (trigger raise that hit, remove that hit, clear, deadline passed); distinct = distinct (op-shape sequence, backend, limit) hash",
    fault_keys=["memory_pressure_events", "tick"],
-   probe_keys=["restore_existing", "key_as_trigger", "rise_multi", "fetch_miss_expired", "inherit_into_recorder", "rec_store_inherited", "memory_pressure_events", "ambiguous_states"],
+   probe_keys=["restore_existing", "key_as_trigger", "rise_multi", "fetch_miss_expired", "inherit_into_recorder", "rec_store_inherited", "pfetch", "pfetch_hit", "pstore", "pstore_with_inherited_triggers", "memory_pressure_events", "ambiguous_states"],
    components=E2_COMPONENTS,
    assumptions=["the sequential reference model (harness/cache_model.h) encodes the documented semantics listed in DESIGN.md Appendix A",
                 "process_shared back-end is exercised from one process (forked child per run); cross-process locking is not simulated",
@@ -30,7 +30,7 @@ PROPS = {
    seconds={"quick": 45, "thorough": 600},
    rule="cases = operation sequences as in C07 with limit 1..8 and key alphabets larger than the limit, deadlines straddling the simulated clock, value sizes up to beyond shared memory, long fill/clear cycles on the process_shared back-end; "
         "stats and every fetch compared with a model implementing 'expired first, then LRU tail'; after each clear() of the shared segment the free shared memory must be back at its baseline (minus a slack of 64 page headers for a different page structure); 'storm' operations issue bursts of stores whose long keys exhaust the segment while a node is being built. "
-        "first 2*16^3 (quick) / 2*16^5 (thorough) indices enumerate all short sequences for limit 1 and 2. non-trivial = at least one eviction was forced by the limit and a later fetch hit; distinct = distinct (op-shape, backend, limit) hash",
+        "first 2*16^3 (quick) / 2*16^5 (thorough) indices enumerate all short sequences for limit 1 and 2. Added in round 2: exact-repeat values and colliding key names as in C07; long cycles use keys of at most 31 KB (cost). non-trivial = at least one eviction was forced by the limit and a later fetch hit; distinct = distinct (op-shape, backend, limit) hash",
    fault_keys=["memory_pressure_events", "tick"],
    probe_keys=["evict_expired", "evict_lru", "leak_checks", "alloc_storms", "memory_pressure_events", "key_as_trigger", "ambiguous_states"],
    components=E2_COMPONENTS,
@@ -44,7 +44,7 @@ PROPS = {
    seconds={"quick": 40, "thorough": 600},
    rule="cases = (2..8 threads x 1..10 cache ops each over 1..3 keys / 0..2 triggers, limit in {0,1,2,4}, optional sequential prefix) x a seeded schedule (random walk, PCT depth 1..3, run-to-block) that decides every interleaving at "
         "each rwlock/mutex operation inside the real cache. Each run: TSan (tsan variant) or ASan/UBSan (asan variant) watches the real accesses; the recorded invoke/return history (stamped with a global event counter) is searched for a linearization against "
-        "the sequential cache model (Wing-Gong-Lowe with memoisation, <= 40 ops, <= 2e6 states, else counted inconclusive). non-trivial = history contains >= 1 pair of time-overlapping operations by different threads on the same key/trigger; distinct = distinct schedule trace hash",
+        "the sequential cache model (Wing-Gong-Lowe with memoisation, <= 40 ops, <= 2e6 states, else counted inconclusive). Added in round 2: half of the plans use key names with identical string_hash values so that the operations meet in one bucket chain. non-trivial = history contains >= 1 pair of time-overlapping operations by different threads on the same key/trigger; distinct = distinct schedule trace hash",
    fault_keys=[],
    probe_keys=["rw_contended", "overlapping_same_key_pairs", "strategy_pct", "strategy_random", "strategy_run_to_block", "lin_inconclusive"],
    components={"real": ["cppcms::impl::mem_cache<thread_settings> incl. its locking (booster::shared_mutex = pthread_rwlock, std::mutex lru_mutex)", "real OS threads (std::thread), parked/released one at a time"],
@@ -83,9 +83,9 @@ PROPS = {
         "+ 0..2 deadline_timer / stream_socket async_read / async_write chains driven on the loop thread against a peer thread that feeds/drains in pieces, with short reads/writes, EAGAIN, spurious readiness, EINTR; optionally stop() racing the producers) "
         "or (cppcms::thread_pool with 1..4 workers and 1..4 threads posting / cancelling, jobs that throw, optional stop() race), each x a seeded schedule (random / PCT / run-to-block) and a simulated clock. "
         "Every handler is a counting functor: invoked exactly once on the loop thread, timers not before their deadline, descriptor waits only with data present or with canceled/select_failed, jobs at most once and exactly once unless cancelled; all functor objects destroyed. "
-        "non-trivial = run with > 4 thread switches and >= 2 handlers; distinct = distinct schedule trace hash",
+        "Added in round 2: operations issued before run() is called for the first time (post, arm, cancel: a wait armed and cancelled there must complete as canceled once the loop runs two posted handlers); one pair of dependent pool jobs per pool plan (the first waits on its worker for the second; with >= 2 workers the second must get one within 30 simulated seconds). non-trivial = run with > 4 thread switches and >= 2 handlers; distinct = distinct schedule trace hash",
    fault_keys=["eintr", "short_reads", "short_writes", "spurious_wakeups", "eagain", "loop_stop_race", "pool_stop_race", "pool_threw"],
-   probe_keys=["reactor_epoll", "reactor_poll", "reactor_select", "handlers_cancelled_or_error", "aread_ok", "aread_err", "awrite_ok", "awrite_err", "pool_cancelled", "xthread_cancelled_waits", "extra_cancel_rounds", "mutex_contended", "cv_waits", "strategy_pct", "strategy_random", "strategy_run_to_block"],
+   probe_keys=["reactor_epoll", "reactor_poll", "reactor_select", "handlers_cancelled_or_error", "aread_ok", "aread_err", "awrite_ok", "awrite_err", "pool_cancelled", "pool_dependent_pairs", "waits_cancelled_before_run", "xthread_cancelled_waits", "extra_cancel_rounds", "mutex_contended", "cv_waits", "strategy_pct", "strategy_random", "strategy_run_to_block"],
    components={"real": ["booster::aio::io_service (event_loop_impl), reactor (epoll, poll, select back-ends), select_interrupter, deadline_timer, basic_io_device, stream_socket (async_read/async_write)", "cppcms::thread_pool", "real OS threads"],
                "stub": ["kernel: sockets, pipes, epoll/poll/select readiness, short I/O and EINTR (sim/simk)", "clock", "thread scheduler"]},
    assumptions=["only operations documented thread-safe are issued from foreign threads; device/timer objects are used on the loop thread; a timer id is cancelled at most once and not after its handler ran (documented contract)",
@@ -101,9 +101,9 @@ PROPS = {
    rule="case = one real cppcms::service (reactor epoll|poll|select, 1..3 workers, buffer sizes 1..64K) serving 1..5 simulated connections x 1..4 well-formed requests each over http / scgi / fastcgi (sync or async mount, keep-alive / KEEP_CONN sequences), "
         "each request with its own client-side segmentation (whole, few cuts, byte dribble), FastCGI PARAMS/STDIN record sizes and padding, channel capacities and read pace; the transport additionally splits reads/writes, injects EINTR and spurious readiness. "
         "Oracle: the echo application's observation (every CGI variable, GET/POST fields, cookies, raw body) must equal an independent model of the request for that protocol; status 200, handler entered exactly once, response framing valid. "
-        "non-trivial = run in which a request had >= 2 segments or a body; distinct = distinct simulation trace hash",
+        "Added in round 2: header values/names, query strings and path segments around and above the environment pool's page size (1018..6000 bytes, shared 7000-byte budget so that the head stays under the front-ends' 16 KiB), folded header values (obs-fold, one value in five), slow peers (pauses between segments each below 0.45 x http.timeout, together above it), HTTP/1.0 requests must not be answered with the chunked coding. non-trivial = run in which a request had >= 2 segments or a body; distinct = distinct simulation trace hash",
    fault_keys=["short_reads", "short_writes", "eagain", "eintr", "spurious_wakeups"],
-   probe_keys=["multi_segment_requests", "requests_with_body", "keepalive_followups", "chunked_responses", "reactor_epoll", "reactor_poll", "reactor_select"],
+   probe_keys=["multi_segment_requests", "requests_with_body", "keepalive_followups", "slow_peer_pauses", "chunked_responses", "reactor_epoll", "reactor_poll", "reactor_select"],
    components=E1C,
    assumptions=["generated requests stay inside the sub-language where RFC 3875/7230 and the cppcms documentation leave no choice (no '+' or invalid %-escapes in paths, token header names, no duplicate headers)",
                 "the simulated kernel follows Linux semantics for the calls cppcms makes (level-triggered readiness, short I/O, EAGAIN/EINTR) but is a model", "sampling of requests, segmentations and schedules"],
@@ -117,7 +117,7 @@ PROPS = {
    rule="case = as C01, but at least one connection per run ends with a MALFORMED exchange: a valid encoding mutated by one of ~45 operators (truncate at any offset, bit flips, insert/delete, garbage, negative/huge/non-numeric/duplicate/mismatching Content-Length, endless or oversized headers, bare LF, NUL bytes, "
         "SCGI length lies / missing comma / unterminated last string, FastCGI wrong version/type/role/request id, record and pair length lies, STDIN longer/shorter, GET_VALUES, stray records, PARAMS never closed, declared length over the limit) followed by close, half-close or silence; "
         "well-formed probe requests run concurrently on the other connections. Oracle: no sanitizer report / signal / exception out of service::run(); every probe answered exactly as C01 demands; handler entered <= 1 per request; requests that cannot be served never reach the application and get status >= 400 or a close; "
-        "the offending connection is answered or closed within http.timeout+6 simulated seconds; no accepted connection stays open after all peers are gone. non-trivial = run with >= 1 malformed exchange and >= 1 probe; distinct = trace hash",
+        "the offending connection is answered or closed within http.timeout+6 simulated seconds; no accepted connection stays open after all peers are gone. Added in round 2: malformation fold_insert (CRLF + SP/HT a few characters into a line of the head), long header values on kept-alive connections (string-pool pages), the client gates its full parsers with an incremental completeness scan (harness cost). non-trivial = run with >= 1 malformed exchange and >= 1 probe; distinct = trace hash",
    fault_keys=["malformed_exchanges", "short_reads", "short_writes", "eagain", "eintr", "spurious_wakeups"],
    probe_keys=["malformed_refused_as_required", "exchanges", "keepalive_followups", "filter_on_error_calls", "filters_installed", "reactor_epoll", "reactor_poll", "reactor_select"],
    components=E1C,
@@ -133,7 +133,7 @@ PROPS = {
    rule="case = a 'writer' application executes a generated script (0..40 writes of 0..200000 bytes incl. byte-at-a-time, flushes, setbuf(k) incl. 0, headers, cookies, content type, io_mode normal|nogzip|raw|asynchronous|asynchronous_raw (raw: own header block written in 1..70-byte pieces), full/partial async buffering, optional page cache key shared between requests) "
         "for http 1.0/1.1 (keep-alive, Content-Length or chunked), scgi, fastcgi; gzip on/off; client channel capacity 1 B..256 KiB and read pace from the plan; every writev may accept any prefix or EAGAIN. "
         "Oracle: an independent de-framer (chunked / Content-Length / until-close / FastCGI STDOUT records + END_REQUEST) yields the body, gunzipped when encoded, which must equal the script's bytes (position-dependent pattern), one header block with every header/cookie set, a cached page byte-identical to a stored one. "
-        "non-trivial = run with >= 2 segments or body; distinct = trace hash",
+        "Added in round 2: a response to an HTTP/1.0 request must not use the chunked transfer coding (RFC 7230 3.3.1). non-trivial = run with >= 2 segments or body; distinct = trace hash",
    fault_keys=["short_writes", "eagain", "short_reads", "eintr", "spurious_wakeups"],
    probe_keys=["writer_responses", "gzip_responses", "chunked_responses", "page_cache_hits", "raw_mode_responses", "client_aborts_mid_response", "keepalive_followups"],
    components=E1C,
@@ -148,7 +148,7 @@ PROPS = {
    rule="case = as C01, with 80% of POST/PUT bodies being multipart/form-data: 0..9 parts (quoted/unquoted names, optional filename, optional Content-Type => file vs field), contents 0..300 KB of random bytes / CR-LF-dash runs with planted look-alikes of the delimiter (every proper prefix of CRLF--boundary, delimiter minus last byte at the end, CRLF-- in the middle), "
         "boundaries of 1..70 chars incl. leading '-', sent over http/scgi/fastcgi to sync and async mounts with client segmentation, FastCGI STDIN record sizes, input_buffer_size 1..64K and transport read splitting deciding every parser chunk; file_in_memory_limit 0..128K (spill to temp files); content/multipart limits 1 KB..2 MB. "
         "Oracle: fields and files observed by the application (name, file name, media type, byte-exact content by length+hash+head+tail, order) equal those encoded; bodies over a limit get 413 and never reach the handler; malformed multipart bodies (C02 operators: no final boundary, bad part header, not form-data, truncation, length lies) never reach the handler; "
-        "a third of the bodies sent to asynchronous mounts go through an application that installs a raw_content_filter or a multipart_filter: the raw filter must see every body byte exactly once (length+hash) with one on_end_of_content, the multipart filter one on_new_file/on_data_ready per part, sizes never shrinking, and on_error at most once and never together with completion; the upload directory is empty after the run. A quarter of the plans inject disk faults into the stdio calls on the spill files at explicit positions (fopen ENOSPC, short fwrite, failing fflush/fseek while data is buffered, optionally sticky = disk stays full): then a multipart request may be refused (413/500/503, handler not entered) but a 200 still has to be byte-exact and no temporary file may survive. non-trivial = run with a body or >= 2 segments; distinct = trace hash",
+        "a third of the bodies sent to asynchronous mounts go through an application that installs a raw_content_filter or a multipart_filter: the raw filter must see every body byte exactly once (length+hash) with one on_end_of_content, the multipart filter one on_new_file/on_data_ready per part, sizes never shrinking, and on_error at most once and never together with completion; the upload directory is empty after the run. A quarter of the plans inject disk faults into the stdio calls on the spill files at explicit positions (fopen ENOSPC, short fwrite, failing fflush/fseek while data is buffered, optionally sticky = disk stays full): then a multipart request may be refused (413/500/503, handler not entered) but a 200 still has to be byte-exact and no temporary file may survive. Added in round 2: a quarter of the connections end with a malformed upload (operators mp_cut = body cut, consistently with its declared length, at structural points before the closing delimiter; mp_no_final_boundary, mp_bad_part_header, mp_no_name, cl_bigger, cl_over_limit, truncate). non-trivial = run with a body or >= 2 segments; distinct = trace hash",
    fault_keys=["short_reads", "short_writes", "eagain", "eintr", "spurious_wakeups", "disk_faults_injected"],
    probe_keys=["requests_with_body", "over_limit_413", "uploads_refused_after_disk_fault", "upload_spill_stdio_calls", "content_filter_requests", "filters_installed", "filter_on_error_calls", "multi_segment_requests", "keepalive_followups"],
    components=E1C,
@@ -164,24 +164,24 @@ PROPS = {
    rule="case = one server (session_pool with one of 13 encryptor configurations: hmac-{md5,sha1,sha224,sha256,sha384,sha512}, aes/aes128/aes192/aes256, split cbc+hmac keys) and a history of 3..43 operations: save(payload 0..64 KiB, age), load, clock advance (seconds..years), "
         "and attacker rewrites of the browser's cookie (single-bit flips - position enumerated across runs, truncation, extension, cipher block swaps, splices of two issued cookies, cookies issued by a server with another key or another algorithm, prefix change, random strings, replay of old cookies, non-canonical base64, empty cipher). "
         "Oracle over the history: load succeeds iff the presented cookie decodes (independent base64url decoder) to a cipher text this server issued and its deadline has not passed, and then returns exactly the data saved with it; rejected cookies are cleared from the jar, nothing throws; save-then-load is the identity; "
-        "with encrypting back-ends equal payloads give different cookies, no 16-byte block repeats, the payload does not occur in the cookie; CBC-without-MAC and 8-byte keys are refused at configuration time. non-trivial = history with >= 1 accepted and >= 1 rejected load; distinct = plan hash",
+        "with encrypting back-ends equal payloads give different cookies, no 16-byte block repeats, the payload does not occur in the cookie; CBC-without-MAC and 8-byte keys are refused at configuration time. Added in round 2: the authentication tag of EVERY issued cookie is recomputed with OpenSSL from the configured key material and the documented construction (hmac-X: HMAC-X(key,payload); aes*: HMAC-SHA1 under HMAC-SHA256(key,0x01)[0..20); split keys) and must match; a 'pool race' scenario lets 2..4 worker threads share a freshly created session_pool (save + load back each), run by the ASan build now and then and exclusively by the TSan build. non-trivial = history with >= 1 accepted and >= 1 rejected load; distinct = plan hash",
    fault_keys=["attacks", "ticks", "clock_jumps"],
-   probe_keys=["loads_accepted", "loads_rejected", "saves", "config_refusal_checks", "repeated_cipher_block"],
+   probe_keys=["loads_accepted", "loads_rejected", "saves", "tags_recomputed_independently", "pool_race_threads", "config_refusal_checks", "repeated_cipher_block"],
    components=E5C,
    assumptions=["cryptographic strength itself is outside the reach of sampling: the structural confidentiality checks are necessary conditions only", "entropy comes from the simulated /dev/urandom (seeded)"],
    category="exploration",
    text="Deterministic simulation of the client-side session stack under a simulated clock, entropy source and an attacker rewriting the stored cookie at arbitrary points of a save/load history; a history oracle decides authenticity and expiry exactly.",
    note="Trusts the harness's independent base64url decoder and bookkeeping of issued cipher texts; sampling cannot establish cryptographic strength.",
-   technique="deterministic simulation (clock, entropy, attacker actor) over save/load histories with a history oracle",
+   technique="deterministic simulation (clock, entropy, attacker actor) over save/load histories with a history oracle and an independent (OpenSSL) recomputation of every issued tag; seeded thread schedules + TSan for a shared pool",
    design_ref="DESIGN.md s4 C05, s3 E5"),
  "C06": dict(repo_probes=['session.save_skipped_fixed_unchanged', 'session.renewal_skipped_below_10_percent'], engine="E5 session", src="e5_session", variants=["asan"], level="exploration",
    seconds={"quick": 40, "thorough": 600},
    rule="case = 1..3 simulated browsers (sequential in plan order, or - 1/3 of multi-browser runs - one scheduled thread per browser plus an environment thread, seeded schedule) issuing 2..32 requests (load; 0..6 of set/erase/clear/expose/hide/age/default_age/expiration/default_expiration/on_server/reset_session; optional clock advance inside the request; save) against one session_pool with location client|server|both, storage memory|files (simulated FS, optional short/interrupted I/O)|network (20%: a real tcp_cache_service session server with its own thread on the simulated network, run in a forked child), "
         "expire fixed|renew|browser, client_size_limit flipping cookie/server storage, remove_unknown_cookies on/off; interleaved with clock advances (around deadlines and the 10% renewal boundary), gc, browser restarts and attacker requests (ended ids, path-like / upper-case / short / long / non-hex ids, junk C cookies). "
         "Oracle after every request: loaded view == reference model (values, exposed flags, age, expiration, on_server) or empty once cleared/expired (interval model: renewal may be skipped only while < 10% of the period has elapsed); cookie prefix (I/C) matches the prescribed storage location; server ids well-formed, fresh on new/reset sessions, old ids gone from the storage after clear/reset/migration; "
-        "exposed values present in / absent from the browser's cookies in step with the session; ids not of the issued form never reach the storage (spy storage). non-trivial = >= 3 requests, a live load and a clock advance; distinct = plan hash",
+        "exposed values present in / absent from the browser's cookies in step with the session; ids not of the issued form never reach the storage (spy storage). Added in round 2: a quarter of the sequential plans reuse ONE session_interface object for all requests, re-targeted with set_cookie_adapter_and_reload(). non-trivial = >= 3 requests, a live load and a clock advance; distinct = plan hash",
    fault_keys=["file_short_io", "file_eintr", "ticks", "attacks", "browser_closed", "gc"],
-   probe_keys=["fixed_unchanged", "renew_skippable", "renew_boundary", "renewed", "moved_server_to_client", "moved_client_to_server", "sessions_reset", "session_cleared", "expired_during_request", "exposed_checked", "on_server_refused", "server_side_saves", "client_side_saves", "network_storage_runs", "concurrent_runs", "thread_switches", "mutex_contended"],
+   probe_keys=["fixed_unchanged", "renew_skippable", "renew_boundary", "renewed", "moved_server_to_client", "moved_client_to_server", "sessions_reset", "session_cleared", "expired_during_request", "exposed_checked", "reloads_of_reused_object", "on_server_refused", "server_side_saves", "client_side_saves", "network_storage_runs", "concurrent_runs", "thread_switches", "mutex_contended"],
    components=E5C,
    assumptions=["in a third of the multi-browser runs every browser is its own scheduled thread (requests of different browsers, gc and attacker requests interleave at every lock / file operation; the clock then moves only between requests); the network session storage is exercised without connection faults", "a browser presents the cookies it held when the request began (snapshot), as a real HTTP request does",
                 "an id a browser merely forgot is still a live bearer token; only cleared/reset/expired ids are treated as ended"],
@@ -195,9 +195,9 @@ PROPS = {
    rule="case = 1..2 real cache servers (1..2 I/O threads), 2..3 client nodes (cache_over_ip with no L1 / unlimited L1 / L1 of 1..4 entries, 2 threads each = per-thread connections) on the simulated network (segmentation, channel capacity 1 B..64 KiB), 5..65 operations store/fetch/rise/clear/stats/clock-advance over 1..4 binary keys (incl. 0x7f, control bytes, 70-byte key), "
         "values 0..100 KB incl. NUL bytes, 0..40 triggers incl. the empty name. Mode seq (50%): one operation at a time in plan order by any client thread, every result (value, trigger set, deadline, stats, per-server key counts by the documented hash) must equal the single-copy model. "
         "Mode conc (30%): all client threads run freely, the history must be linearizable against the single-copy model. Mode fault (20%): connection resets after n transferred bytes, server crash+restart (state lost), client clock skew: an operation may throw or a fetch may miss, but a hit must never return a value that was replaced, invalidated or lost before the fetch began. "
-        "non-trivial = run with a fetch hit or a concurrent history; distinct = trace hash",
-   fault_keys=["connection_resets", "server_restarts", "ops_failed", "short_reads", "short_writes", "ticks", "resets_seen"],
-   probe_keys=["mode_seq", "mode_conc", "mode_fault", "fetch_hit", "distribution_checks", "stores_refused_empty_trigger", "overlapping_pairs", "lin_inconclusive", "stats_multi_server_not_atomic"],
+        "Added in round 2: partition faults (the link between one client node and one server is cut - established connections reset, connects refused - and healed a few operations later; half of them start at a rise/clear of the isolated node); one store in six repeats an earlier store exactly (same key, bytes, triggers, absolute deadline); keys and trigger names with NUL bytes (known finding nul-name-in-key-or-trigger); with several servers the linearizability check gives every rise/clear one linearization point per server. non-trivial = run with a fetch hit or a concurrent history; distinct = trace hash",
+   fault_keys=["connection_resets", "server_restarts", "partitions", "connects_refused_by_partition", "ops_failed", "short_reads", "short_writes", "ticks", "resets_seen"],
+   probe_keys=["mode_seq", "mode_conc", "mode_fault", "fetch_hit", "distribution_checks", "stores_refused_empty_trigger", "overlapping_pairs", "lin_inconclusive", "lin_broadcasts_split_per_server", "plans_with_nul_in_names", "stats_multi_server_not_atomic"],
    components=E4C,
    assumptions=["empty keys are outside the protocol's domain (the server rejects key_len == 0 by design) and are not generated; a store carrying an empty trigger name is refused by the wire format: the model then expects the key to be gone",
                 "stats() over several servers is read server by server and is not checked as an atomic snapshot", "servers run without a size limit so that the single-copy model is exact; L1 limits are exercised (1..4 entries)"],
